@@ -87,6 +87,7 @@ func verifCanary(label string, cond bool) {}
 //@ func (*Buffer).ReadBytes
 //@   props C02 C01 C20
 //@   requires bufInv(b)
+//@   maxalloc [C02:alloc] len(b.buf)
 //@   assigns b.pos, b.err
 //@   ensures [C02:inv] bufInv(b) && sameslice(b.buf, old(b.buf)) && b.pos >= old(b.pos)
 //@   ensures [C02:sticky] old(b.err) != nil ==> len(result) == 0 && b.pos == old(b.pos) && b.err == old(b.err)
@@ -147,6 +148,7 @@ func verifCanary(label string, cond bool) {}
 //@ func (*Buffer).ReadString
 //@   props C02
 //@   requires bufInv(b)
+//@   maxalloc [C02:alloc] len(b.buf)
 //@   assigns b.pos, b.err
 //@   ensures [C02:inv] bufInv(b) && sameslice(b.buf, old(b.buf)) && b.pos >= old(b.pos)
 //@   ensures [C02:sticky] old(b.err) != nil ==> b.pos == old(b.pos) && b.err == old(b.err)
@@ -187,6 +189,7 @@ func verifCanary(label string, cond bool) {}
 //@ func (*Variant).decodeValue
 //@   props C02
 //@   requires m != nil && bufInv(buf)
+//@   maxalloc [C02:alloc] len(buf.buf)
 //@   assigns buf.pos, buf.err
 //@   ensures [C02:inv] bufInv(buf) && sameslice(buf.buf, old(buf.buf)) && buf.pos >= old(buf.pos)
 //@   ensures [C02:sticky] old(buf.err) != nil ==> buf.pos == old(buf.pos) && buf.err == old(buf.err)
@@ -221,6 +224,64 @@ func verifCanary(label string, cond bool) {}
 //@   loop 2 invariant 1 <= count && count <= 65535
 //@   loop 3 invariant len(dims) == len(m.arrayDimensions) && fresh(dims)
 //@   loop 3 invariant forall k int :: 0 <= k && k <= rangeindex ==> dims[k] >= 1
+
+// The other hand-written decoders: no panic, the reported count lies inside the input, nothing is
+// written but the target and younger objects, and no single allocation exceeds the input length.
+// The type registry (reflection) is assumed.
+//@ func (*TypeRegistry).New
+//@   props C02
+//@   assumed
+//@   assigns nothing
+//@   ensures result == nil || fresh(result)
+
+//@ func (*DataValue).Decode
+//@   props C02
+//@   requires d != nil
+//@   maxalloc [C02:alloc] len(b)
+//@   assigns since(d) but Buffer
+//@   ensures [C02:consumed] err == nil ==> 0 <= result0 && result0 <= len(b)
+
+//@ func (*GUID).Decode
+//@   props C02
+//@   requires g != nil
+//@   maxalloc [C02:alloc] len(b)
+//@   assigns since(g) but Buffer
+//@   ensures [C02:consumed] err == nil ==> 0 <= result0 && result0 <= len(b)
+
+//@ func (*LocalizedText).Decode
+//@   props C02
+//@   requires l != nil
+//@   maxalloc [C02:alloc] len(b)
+//@   assigns since(l) but Buffer
+//@   ensures [C02:consumed] err == nil ==> 0 <= result0 && result0 <= len(b)
+
+//@ func (*DiagnosticInfo).Decode
+//@   props C02
+//@   requires d != nil
+//@   maxalloc [C02:alloc] len(b)
+//@   assigns since(d) but Buffer
+//@   ensures [C02:consumed] err == nil ==> 0 <= result0 && result0 <= len(b)
+
+//@ func (*ExpandedNodeID).Decode
+//@   props C02
+//@   requires e != nil
+//@   maxalloc [C02:alloc] len(b)
+//@   assigns since(e) but Buffer
+//@   ensures [C02:consumed] err == nil ==> 0 <= result0 && result0 <= len(b)
+
+//@ func (*ExtensionObject).Decode
+//@   props C02
+//@   requires e != nil
+//@   maxalloc [C02:alloc] len(b)
+//@   assigns since(e) but Buffer
+//@   ensures [C02:consumed] err == nil ==> 0 <= result0 && result0 <= len(b)
+
+//@ func (*NodeID).Decode
+//@   props C02
+//@   requires n != nil
+//@   maxalloc [C02:alloc] len(b)
+//@   assigns since(n) but Buffer
+//@   ensures [C02:consumed] err == nil ==> 0 <= result0 && result0 <= len(b)
 
 // ---------------------------------------------------------------------------
 // NodeID identity as seen by callers (C31, C33): the textual form is an uninterpreted function of the
